@@ -1175,7 +1175,7 @@ def builder_run(tier, wd):
     # out_path filtering keeps non-EDGE lines in lres["out"]; the adapter reads the raw file (EDGE + KINDS lines)
     tlc_ok(lres, "StunBuilder LTS")
     runs = []
-    for depth, alpha in ([(4, "full"), (6, "reduced")] if tier == "quick" else [(5, "full"), (7, "reduced")]):
+    for depth, alpha in ([(4, "full"), (6, "reduced"), (6, "reduced2")] if tier == "quick" else [(5, "full"), (7, "reduced"), (7, "reduced2")]):
         op = os.path.join(wd, "builder_%s.out" % alpha)
         run_harness(["builder", ltsp, op, str(depth), alpha], timeout=3000)
         recs = read_ndjson(op)
@@ -1205,7 +1205,7 @@ def builder_check(pid, rep, tier, seed, wd):
                 states[r["state"]] = r
     # every distinct builder state: serialised bytes through the parser specification (structural C03, last sentence of C11)
     key = {"kind": "short", "password": list(b"builder-key")}
-    cases = [{"bytes": st["bytes"], "creds": [key], "src": "builder state [%s]" % k, "types": st["types"], "lookup": [6, 8, 28, 36, 32513, 32802, 32808]}
+    cases = [{"bytes": st["bytes"], "creds": [key], "src": "builder state [%s]" % k, "types": st["types"], "lookup": [6, 8, 28, 36, 32513, 32802, 32808, 32810]}
              for k, st in sorted(states.items())]
     triples = run_pipeline(cases, wd, "builder", trace=False)
     for case, obs, exp, hang in triples:
